@@ -162,7 +162,21 @@ def judge_apply(rec, prop):
             return [V(prop, "violated", "post-state-invalid", f"{bad[0][0]}: {bad[0][1]}", cell=cell, **sig)]
         return [V(prop, "held", cell=cell, **sig)]
     if exp["approx"]:
-        # truncation quality is C10's business; C01 only demands the right map up to the documented threshold
+        # truncation quality is C10's business; C01 only demands the right map up to the documented threshold.
+        # But a result that is far from the ideal one although (almost) all of the ideal result lies inside the
+        # dimension the library chose cannot be explained by truncation: cutting off population `lost` moves the
+        # state by at most ~2 sqrt(lost) in trace distance.
+        try:
+            post_dims = impl_dims(rec.post)
+            lost = 0.0
+            for f in st["targets"]:
+                if rec.world.kind(f) == "F":
+                    dg = ref.diag_probs(exp["rho"], exp["dims"], exp["names"].index(f))
+                    lost = max(lost, float(dg[(post_dims.get(f) or 0):].sum()))
+            if meas == "tracedist" and err > 0.02 + 6 * np.sqrt(lost):
+                return [V(prop, "violated", "wrong-state", f"{meas}={err:.3g} while only {lost:.3g} of the ideal result lies outside the chosen dimension", cell=cell, **sig)]
+        except Exception:  # noqa: BLE001
+            pass
         return [V(prop, "inconclusive", "approx-band", f"{meas}={err:.3g}", cell=cell, **sig)]
     mode = "wrong-state"
     # cheap defect-model tags (used by known-finding matching)
